@@ -213,6 +213,7 @@ package table
 //@   ensures[bindings] result == nil ==> bindingSet(t.mbs) && (forall k string :: {has(t.mbs, k)} has(t.mbs, k) <==> (has(old(t.mbs), k) || has(t2.mbs, k)))
 //@   ensures[size] result == nil ==> len(t.Data) == old(len(t.Data)) * len(t2.Data)
 //@   ensures[rows] result == nil ==> (forall i int, j int :: {old(t.Data[i]), t2.Data[j]} 0 <= i && i < old(len(t.Data)) && 0 <= j && j < len(t2.Data) ==> mergeOf(t.Data[i * len(t2.Data) + j], old(t.Data[i]), t2.Data[j]))
+//@   ensures[first-pairing] result == nil && len(t2.Data) > 0 ==> (forall i int :: {old(t.Data[i])} 0 <= i && i < old(len(t.Data)) ==> 0 <= i * len(t2.Data) && i * len(t2.Data) < len(t.Data) && mergeOf(t.Data[i * len(t2.Data)], old(t.Data[i]), t2.Data[0]))
 //@   loop 0 invariant[m] t.#lock_mu == 2 && m != nil && fresh(m) && bindingSet(m) && (forall k string :: {$vis[k]} $vis[k] ==> has(t.mbs, k)) && (forall k string :: {has(m, k)} has(m, k) <==> $vis[k]) && t.mbs == old(t.mbs) && t.Data == old(t.Data)
 //@   loop 1 invariant[m] t.#lock_mu == 2 && m != nil && fresh(m) && bindingSet(m) && (forall k string :: {$vis[k]} $vis[k] ==> has(t2.mbs, k)) && (forall k string :: {has(m, k)} has(m, k) <==> (has(t.mbs, k) || $vis[k])) && t.mbs == old(t.mbs) && t.Data == old(t.Data)
 //@   loop 2 invariant[bindings] t.#lock_mu == 2 && t.mbs != nil && fresh(t.mbs) && bindingSet(t.mbs) && (forall k string :: {has(t.mbs, k)} has(t.mbs, k) <==> (has(old(t.mbs), k) || has(t2.mbs, k))) && t.Data == old(t.Data)
@@ -267,4 +268,4 @@ package table
 //@   modifies t.mbs, t.AvailableBindings, t.Data, t2.Data, t.#lock_mu, t2.#lock_mu
 //@   ensures[lock] t.#lock_mu == 0 && t2.#lock_mu == 0
 //@   ensures[no-error] result == nil
-//@   ensures[left-rows-kept] leftRowsKept(t.Data, old(t.Data))
+//@   ensures[left-rows-kept@C10] leftRowsKept(t.Data, old(t.Data))
